@@ -189,7 +189,7 @@ PROPS["C13"] = {
     "level": "proof",
     "assumptions": [
         "PROVED for all inputs (unit canon): the real in-place two-cursor text of canonicalize_path computes exactly the byte-level spec function cn::canon (one case per component kind, written from the statement), never writes or reads out of bounds (every assert_unchecked is a discharged assert, R3), and 1 <= len(result) <= len(input); preconditions: non-empty, <= 60 component starts",
-        "BOUNDED (labelled, not counted as proved): that cn::canon itself is idempotent, yields the canonical form (no `.`/empty/`name/..` component, `..` only leading, root kept) and denotes the same lexical location is checked inside Verus by `by (compute)` for every byte string of length <= 5 (quick) / <= 7 (thorough) over {a . / \\}, 1364 / 21844 strings -- an exhaustive bounded check of the SPECIFICATION; the unbounded lemmas (idempotence by induction over the output grammar) were not attempted",
+        "BOUNDED (labelled, not counted as proved): that cn::canon itself is idempotent, yields the canonical form (no `.`/empty/`name/..` component, `..` only leading, root kept) and denotes the same lexical location is checked inside Verus by `by (compute)` for every byte string of length <= 5 (quick) / <= 7 (thorough) over {a . / \\}, 1364 / 21844 strings -- an exhaustive bounded check of the SPECIFICATION.  Unbounded half of idempotence PROVED: cn::lemma_canon_fix -- every string in canonical form (cn::is_canonical: no empty/`.` component, `..` only leading) is a fixpoint of cn::canon; the other half (every output IS in canonical form) and location equivalence are only covered by the bounded check",
         "call sites: GraphFiles::{id_from_canonical, lookup} (trusted hash-map stubs) require a canonical name; discharged at Loader::path (manifest paths), Work::lookup (command-line names) and Work::record_finished (reported dependencies) using the ASSUMED axiom canon(canon(s)) == canon(s) on the uninterpreted char-level canon; db::Reader::read_path (names read back from the log) is not checked",
         "TRUSTED: StackStack (MaybeUninit array, unsafe) modelled as a sequence (R8); String::as_mut_vec / Vec::set_len specs (unsafe code: the bytes left in the vector are the string afterwards -- that they stay valid UTF-8 is the code comment's argument, not checked); Vec<u8> length <= isize::MAX",
         "UTF-8 names: the byte-level spec treats every non-separator, non-dot byte alike, so multi-byte characters are covered by the unbounded refinement proof; the bounded adequacy check uses the 4-letter alphabet only",
